@@ -54,7 +54,17 @@ func (c *Ctx) accessesOf(st *types.Named, fns []*ssa.Function) []fieldAccess {
 							out = append(out, fieldAccess{fn, y, fv, "load", x.X, nil})
 						}
 					case *ssa.DebugRef:
+					case *ssa.FieldAddr:
+						// a projection into a struct-valued field (r.inputs.enabled): the access is to the nested struct's
+						// field, which is analysed with the nested struct type
 					default:
+						// &r.inputs handed as the receiver to a method of the nested struct: that method's accesses are
+						// analysed with the nested struct type
+						if cc := callCommon(ref); cc != nil && len(cc.Args) > 0 && cc.Args[0] == ssa.Value(x) {
+							if callee := cc.StaticCallee(); callee != nil && callee.Signature.Recv() != nil && isRepoFn(callee) {
+								break
+							}
+						}
 						out = append(out, fieldAccess{fn, ref, fv, "addr", x.X, nil})
 					}
 				}
@@ -79,6 +89,9 @@ func isFreshAlloc(base ssa.Value) bool {
 	switch x := base.(type) {
 	case *ssa.Alloc:
 		return true
+	case *ssa.FieldAddr:
+		// a nested struct literal inside a fresh struct
+		return isFreshAlloc(x.X)
 	case *ssa.UnOp:
 		// load of a local cell holding the pointer: look for the single store of an Alloc
 		if cell, ok := x.X.(*ssa.Alloc); ok && cell.Referrers() != nil {
